@@ -9,22 +9,26 @@ Open Scope Z_scope.
 
 Definition xor_lists (a b : list Z) : list Z := map (fun p => Z.lxor (fst p) (snd p)) (combine a b).
 
-(* ---- a toy MAC with a 61-bit polynomial state (every single-byte change of the input changes
-   the state; toys.ToyMac's 20-bit shift register forgets early bytes, which would make the
-   C02 direct oracle see "forgeries" that are toy collisions) ------------------------------------ *)
-Definition TM_P : Z := 2305843009213693951.      (* 2^61 - 1 *)
-Definition tm_base (key : list Z) : Z := fold_left (fun h b => (h * 257 + b + 1) mod TM_P) key 1000003 + 2.
-Definition tm_absorb (base : Z) (h b : Z) : Z := (h * base + b + 1) mod TM_P.
-Fixpoint tm_out (fuel : nat) (base h : Z) (n : Z) : list Z :=
+(* ---- a toy MAC whose 32-bit state is updated by a bijection per input byte (xorshift32), so two
+   inputs that differ in one byte never collide (toys.ToyMac's 20-bit shift register forgets early
+   bytes, which the C02 direct oracle would report as forgeries).  Only cheap bit operations: a
+   16 kB input costs vm_compute about 0.3 s. ------------------------------------------------------- *)
+Definition M32 : Z := 4294967295.
+Definition tm_mix (h : Z) : Z :=
+  let h := Z.lxor h (Z.land (Z.shiftl h 13) M32) in
+  let h := Z.lxor h (Z.shiftr h 17) in
+  Z.lxor h (Z.land (Z.shiftl h 5) M32).
+Definition tm_absorb (h b : Z) : Z := tm_mix (Z.lxor h (b + 1)).
+Definition tm_init (key : list Z) : Z := fold_left tm_absorb key 2463534242.
+Fixpoint tm_out (fuel : nat) (h : Z) (n : Z) : list Z :=
   match fuel with
   | O => []
   | S f => if n <=? 0 then [] else
-           map (fun j => Z.land (Z.shiftr h (8 * j)) 255) (firstn (Z.to_nat (Z.min n 7)) [0; 1; 2; 3; 4; 5; 6])
-           ++ tm_out f base ((h * base + 17) mod TM_P) (n - 7)
+           map (fun j => Z.land (Z.shiftr h (8 * j)) 255) (firstn (Z.to_nat (Z.min n 4)) [0; 1; 2; 3])
+           ++ tm_out f (tm_mix (Z.lxor h 1540483477)) (n - 4)
   end.
 Definition toy2_mac (key : list Z) (ds : Z) (msg : list Z) : list Z :=
-  let base := tm_base key in
-  tm_out (S (Z.to_nat ds)) base (fold_left (tm_absorb base) msg (base mod 65521 + 1)) ds.
+  tm_out (S (Z.to_nat ds)) (tm_mix (Z.lxor (fold_left tm_absorb msg (tm_init key)) 2654435769)) ds.
 Definition toy2_hmac (key : list Z) (ds bs : Z) : HMac :=
   {| mac_ds := ds; mac_bs := bs; mac_fn := toy2_mac key ds; mac_acc := [] |}.
 
